@@ -177,7 +177,12 @@ func (o *Array) BinaryOp(op token.Token, rhs Object) (Object, error) {
 			if len(rhs.Value) == 0 {
 				return o, nil
 			}
-			return &Array{Value: append(o.Value, rhs.Value...)}, nil
+			// never append in place: the left operand may have spare
+			// capacity that is shared with other arrays (and, for values
+			// held by builtin modules or constants, with other clones)
+			elems := make([]Object, 0, len(o.Value)+len(rhs.Value))
+			elems = append(elems, o.Value...)
+			return &Array{Value: append(elems, rhs.Value...)}, nil
 		}
 	}
 	return nil, ErrInvalidOperator
@@ -835,7 +840,9 @@ func (o *ImmutableArray) BinaryOp(op token.Token, rhs Object) (Object, error) {
 	if rhs, ok := rhs.(*ImmutableArray); ok {
 		switch op {
 		case token.Add:
-			return &Array{Value: append(o.Value, rhs.Value...)}, nil
+			elems := make([]Object, 0, len(o.Value)+len(rhs.Value))
+			elems = append(elems, o.Value...)
+			return &Array{Value: append(elems, rhs.Value...)}, nil
 		}
 	}
 	return nil, ErrInvalidOperator
